@@ -224,6 +224,16 @@ where
     S::Value: Serialize + Clone + Debug,
     F: Fn(&S::Value, &mut Stats) -> Result<(), String> + Sync,
 {
+    drive_opts(ctx, salt, cases, 4000, strat, test)
+}
+
+/// As `drive`, with an explicit bound on shrink iterations (expensive cases: real processes).
+pub fn drive_opts<S, F>(ctx: &Ctx, salt: u64, cases: u32, max_shrink: u32, strat: impl Fn() -> S + Sync, test: F) -> (Stats, Vec<Failure>)
+where
+    S: Strategy,
+    S::Value: Serialize + Clone + Debug,
+    F: Fn(&S::Value, &mut Stats) -> Result<(), String> + Sync,
+{
     let workers = ctx.workers.max(1).min(cases.max(1) as usize);
     let stop = AtomicBool::new(false);
     let all = Mutex::new((Stats::default(), Vec::<Failure>::new()));
@@ -247,7 +257,7 @@ where
                 {
                     cases: share,
                     failure_persistence: None,
-                    max_shrink_iters: 4000,
+                    max_shrink_iters: max_shrink,
                     max_global_rejects: 65536,
                     ..Config::default()
                 };
